@@ -3,6 +3,7 @@ package main
 import (
 	"context"
 	"errors"
+	"fmt"
 	"sort"
 	"strings"
 	"sync"
@@ -141,7 +142,16 @@ func runBatch(payload []*Sx) *Sx {
 	}
 	var delivered []*Sx
 	calls := 0
-	cbErr := errors.New("callback failed")
+	// the callback's own error: a plain one, or one that wraps the end of some OTHER context (a timed-out write to an audit log, say)
+	var cbErr error
+	switch k % 3 {
+	case 0:
+		cbErr = errors.New("callback failed")
+	case 1:
+		cbErr = fmt.Errorf("audit log: %w", context.DeadlineExceeded)
+	default:
+		cbErr = fmt.Errorf("audit log: %w", context.Canceled)
+	}
 	cb := func(r batch.Result) error {
 		calls++
 		vals := map[string]types.Value{}
